@@ -251,17 +251,26 @@ def check_failed_value_emitted(ctx, R, classes):
                         continue
                     n_sites += 1
                     lost = set(binds[e.line])
-                    # (a handler that gives the name a fallback value has re-bound it)
+                    # (a handler that gives the name a fallback value has re-bound it; a flag the handler sets and a later test
+                    # reads may guard the emission - the paths are not that precise, benefit of the doubt)
+                    flags = set()
                     for t in own_nodes(fn.node):
                         if isinstance(t, ast.Try) and any(b.lineno <= e.line <= (b.end_lineno or b.lineno) for b in t.body):
                             for h in t.handlers:
                                 for y in ast.walk(h):
                                     if isinstance(y, ast.Name) and isinstance(y.ctx, ast.Store):
                                         lost.discard(y.id)
+                                        flags.add(y.id)
+                                    elif isinstance(y, ast.Attribute) and isinstance(y.ctx, ast.Store) and self_field(y):
+                                        flags.add('self.' + self_field(y))
+                    flags.discard(evs[i + 1].b if isinstance(evs[i + 1].b, str) else None)
                     for x in evs[i + 2:]:
                         if x.depth != 0:
                             continue
                         if x.kind in ('ITER', 'LOOPEXIT', 'LOOPCUT', 'RAISE'):
+                            break
+                        if x.kind == 'COND' and isinstance(x.a, str) and any(
+                                __import__('re').search(r'(?<![\w.])%s(?![\w])' % __import__('re').escape(f_), x.a) for f_ in flags):
                             break
                         if x.kind == 'EM':
                             d = (x.x or {}).get('data')
